@@ -736,6 +736,25 @@ fn c13(a: &Args) -> Report {
             sspecs.push(sp);
         }
     }
+    // the deadline of a deferred dump (registered by a delete into a closed blob) may pass while a
+    // dump task is running; blobs closed afterwards still get their index files
+    for (cname, clients) in [
+        ("D;Free;W;W;W", vec![vec![COp::D { k: 0, ts: 5 }, COp::M(Op::FreeExcess), COp::w(7, 10), COp::w(7, 11), COp::w(7, 12)]]),
+        ("D;Free|W;W;W", vec![vec![COp::D { k: 0, ts: 5 }, COp::M(Op::FreeExcess)], vec![COp::w(7, 10), COp::w(7, 11), COp::w(7, 12)]]),
+        ("D;Rot|W;W", vec![vec![COp::D { k: 0, ts: 5 }, COp::M(Op::Rot)], vec![COp::w(7, 10), COp::w(7, 11)]]),
+    ] {
+        for mode in [IoMode::Inplace, IoMode::Background] {
+            let mut sp = SchedSpec::new(&format!("C13/sched/deadline-during-dump/{cname}/{mode:?}"), mode, vec![Op::w(0, 1), Op::Rot], clients.clone());
+            sp.wcfg.max_data_in_blob = 2;
+            sp.clock_choices = 1;
+            sp.liveness_check = true;
+            sp.keys = vec![0, 7];
+            sp.bound = 2;
+            sp.max_execs = if thorough { 30_000 } else { 3_000 };
+            sp.read_points = false;
+            sspecs.push(sp);
+        }
+    }
     // an index dump is requested while the worker's fsync task is still running
     for (cname, clients) in [
         ("W;CloseBg", vec![vec![COp::w(7, 10), COp::M(Op::CloseBg)]]),
@@ -859,7 +878,15 @@ fn c03(a: &Args) -> Report {
     dotted.depth = spec.depth - 2;
     dotted.wcfg.prefix = "a.7.b";
     let r3 = crate::engines::restart::run(&dotted, 0, a.threads);
-    for r2 in [r2, r3] {
+    // eleven closed blobs + the active one, a version of k0 with one timestamp in each: ids reach
+    // two digits, the tie goes to the most recently created blob before and after the restart
+    let mut many = spec.clone();
+    many.name = "C03/restart/many-blobs".into();
+    many.prefix = (0..11).flat_map(|_| [Op::w(0, 1), Op::Rot]).collect();
+    many.alphabet = vec![Op::w(0, 1), Op::w(1, 2), Op::d(0, 2), Op::Rot];
+    many.depth = if thorough { 3 } else { 2 };
+    let r4 = crate::engines::restart::run(&many, 0, a.threads);
+    for r2 in [r2, r3, r4] {
         r.stats.states += r2.stats.states;
         r.stats.restarts += r2.stats.restarts;
         r.stats.distinct_damaged_dirs += r2.stats.distinct_damaged_dirs;
@@ -1779,7 +1806,7 @@ fn c05(a: &Args) -> Report {
         coverage: json!({
             "evaluations": st.roundtrip_checks + st.corruption_cases,
             "distinct_nontrivial": st.corruption_cases + st.roundtrip_checks,
-            "rule": "round trip: value lengths {0..3, around 4096-H, 4095..4097, around 81920-H, 81919..81921, 200000[, 1000000]} x 4 metadata shapes x index {in memory, on disk, regenerated} x I/O mode x key length {4, 33}, every way of reading (read, read_with, load, load_data, load_meta) compared byte for byte; corruption: for a 24 B, 900 B, 5 KiB and 90 KiB record every enumerated data-byte position x {xor 01, 80, ff, 2-byte ffff, 4-byte ffffffff, sparse 80000001; for the 24 B record all single-bit and all two-bit flips in a 32-bit window} applied through a second descriptor with the index in memory and on disk, plus between sessions with validation on/off; every case is distinct",
+            "rule": "round trip: value lengths {0..3, around 4096-H, 4095..4097, around 81920-H, 81919..81921, 200000[, 1000000]} x 6 metadata shapes (none, small, several entries, 1 KiB, 5 KiB with an empty-string key, 100 KiB) x index {in memory, on disk, regenerated} x I/O mode x key length {4, 33}, every way of reading (read, read_with, load, load_data, load_meta) compared byte for byte; corruption: for a 24 B, 900 B, 5 KiB and 90 KiB record every enumerated data-byte position x {xor 01, 80, ff, 2-byte ffff, 4-byte ffffffff, sparse 80000001; for the 24 B record all single-bit and all two-bit flips in a 32-bit window} applied through a second descriptor with the index in memory and on disk, plus between sessions with validation on/off; every case is distinct",
             "samples": st.samples,
             "exhaustive": true,
             "roundtrip_configs": st.roundtrip_configs,
